@@ -1250,9 +1250,37 @@ def thread_variants(body, limit=150):
     return done
 
 
+# --------------------------------------------------------------------------- named constants
+def fold_consts(j):
+    """An operand naming a scalar `const` item is replaced by its value (the compiler's own
+    evaluation, recorded by the driver): `flags |= ENTRY_FLAG_TREE_NODES` and `flags |= 2` are the
+    same program.  The name is kept beside the value (`was`) for messages."""
+    vals = {c["name"]: c for c in j["consts"] if isinstance(c.get("v"), int) and not isinstance(c.get("v"), bool)}
+    n = [0]
+
+    def walk(x):
+        if isinstance(x, list):
+            for e in x:
+                walk(e)
+        elif isinstance(x, dict):
+            k = x.get("k")
+            if isinstance(k, dict) and "def" in k and k["def"] in vals:
+                c = vals[k["def"]]
+                x["k"] = {"ty": k.get("ty", c.get("ty")), "v": c["v"], "was": k["def"]}
+                n[0] += 1
+                return
+            for kk, v in x.items():
+                if kk not in ("span", "fn_span"):
+                    walk(v)
+    for b in j["bodies"]:
+        walk(b["blocks"])
+    return n[0]
+
+
 # --------------------------------------------------------------------------- entry point
 def normalize(j, known=None):
     """mutates the loaded fact dict; returns a summary for the evidence"""
+    folded = fold_consts(j)
     renamed = alias_params(j, load_params()) if known is None else 0
     known = load_known() if known is None else known
     inl = Inliner(j, known).run()
@@ -1266,6 +1294,7 @@ def normalize(j, known=None):
         "inlined": [{"caller": a, "callee": b, "kind": k} for a, b, k in inl.log],
         "absorbed": inl.absorbed,
         "refused": [{"caller": a, "callee": b, "reason": r} for a, b, r in inl.refused],
+        "named_constants_folded": folded,
         "parameters_aliased": renamed,
         "adaptors_desugared": len(des.log),
         "closures_absorbed": des.absorbed,
